@@ -975,3 +975,38 @@ def justified(prog, f, atom, pol, base, mapping=None, depth=0, seen=None):
         rets = [e for e in g.events('ret')]
         return bool(rets) and all(value_ok(g, e, e.get('e'), mp) for e in rets)
     return False
+
+
+def str_value(prog, f, d, depth=0):
+    """The text of a descriptor that is a string literal, a single-definition local holding one, or a constant
+    global character array / pointer initialised with one (`const char kFormat[] = "...";`); None otherwise."""
+    d = strip(d)
+    if not isinstance(d, dict) or depth > 4:
+        return None
+    if d.get('k') == 'str':
+        return d.get('v')
+    if d.get('k') == 'var':
+        if d.get('vk') == 'local':
+            init = f.single_def(d['n']) if f is not None else None
+            return str_value(prog, f, init, depth + 1) if init is not None else None
+        g = prog.globals.get(d.get('n'))
+        if g is not None and g.get('const') and isinstance(g.get('init'), dict):
+            return str_value(prog, None, g['init'], depth + 1)
+    return None
+
+
+def loop_blocks(f, l):
+    """Blocks of the natural loop with header l['header']: the header plus everything that reaches one of its back
+    edges without passing the header again (nested and enclosing loops are told apart by dominance)."""
+    h = l['header']
+    dom = f.dominators()
+    tails = [p for p in f.preds.get(h, []) if h in dom.get(p, ())]
+    body = {h}
+    st = list(tails)
+    while st:
+        x = st.pop()
+        if x in body:
+            continue
+        body.add(x)
+        st.extend(p for p in f.preds.get(x, []) if p not in body)
+    return body
